@@ -312,6 +312,14 @@ pub fn train_case(g: TrainGenCfg) -> impl Strategy<Value = TrainCase> {
                 if mode % 13 == 7 {
                     typew = 8 + ((mode >> 7) % 3) as u8;
                 }
+                // ... and around the point where twice the window no longer fits into a byte
+                const WIDE: [u8; 8] = [126, 127, 128, 129, 130, 131, 200, 255];
+                if mode % 17 == 3 {
+                    charw = WIDE[(mode >> 6) as usize % WIDE.len()];
+                }
+                if mode % 19 == 4 {
+                    typew = WIDE[(mode >> 8) as usize % WIDE.len()];
+                }
             }
             if g.tame {
                 charw = charw.clamp(1, 3);
